@@ -208,8 +208,8 @@ def oracle(cmds, sig, mir):
         if c["op"] == "wrap":
             last_wrap[c["r"]] = "SecretInteger" if c["secret"] else "Integer"
     pname = {r: c["name"] for r, c in enumerate(cmds) if c["op"] == "party"}
-    dead = sorted([c["name"], pname[c["party"]], last_wrap.get(r)] for r, c in enumerate(cmds)
-                  if c["op"] == "input" and r not in reach)
+    dead = [[c["name"], pname[c["party"]], last_wrap.get(r)] for r, c in enumerate(cmds)
+            if c["op"] == "input" and r not in reach]
     if sorted(rest, key=str) != sorted(dead, key=str):
         v.append(("extra-inputs", f"signature inputs beyond the MIR's: {sorted(rest, key=str)}; inputs no output depends on: {sorted(dead, key=str)}"))
     live_parties = {pname[cmds[r]["party"]] for r in reach} | {pname[c["party"]] for c in outs}
